@@ -333,3 +333,62 @@ NOT_ENFORCED_BY_MAIN_AIR = {
     "FriE2F4": "documented constraints (crypto_ops.md) not implemented in this AIR version",
     "Dyn": "decoder/block-hash table",
 }
+
+
+def out_cond(S, ncell, o):
+    ctx = S.ctx
+    if isinstance(o, int) or hasattr(o, "terms"):
+        return ctx.eq(ncell, o)
+    if o[0] == "ite":
+        return z3.If(o[1], ctx.eq(ncell, o[2]), ctx.eq(ncell, o[3]))
+    if o[0] == "bool":
+        return o[1](ncell)
+    raise ValueError(o)
+
+
+def posts_from_spec(S, sp, rc16_assumed=False):
+    """(pre: [Bool], posts: [(label, Bool)], pre_labels) for one operation spec over the view S.
+    Used with S = AIR cells (C04) and with S = processor state before/after the operation (C05)."""
+    ctx = S.ctx
+    pre, pre_labels = [], []
+    for label, b in sp.get("pre", []):
+        pre.append(b)
+        pre_labels.append(label)
+    if sp.get("rc16") and rc16_assumed:
+        for i in range(4):
+            pre.append(S.v(S.hp[i]) < 2**16)
+        pre_labels.append("h0..h3 < 2^16 (range-checked over the b_range bus)")
+    posts = []
+    outs, consumed = sp["outputs"], sp["consumed"]
+    k = len(outs)
+    shift = k - consumed
+    assert shift in (-1, 0, 1), shift
+    for i, o in enumerate(outs):
+        if o is FREE:
+            continue
+        posts.append((f"s{i}'", out_cond(S, S.n[i], o)))
+    b0v = S.v(S.b0)
+    for i in range(k, 16):
+        src = i - shift
+        if src <= 15:
+            posts.append((f"s{i}' = s{src}", ctx.eq(S.n[i], S.s[src])))
+        else:
+            posts.append(("s15' = 0 when depth is 16", z3.Implies(b0v == 16, S.v(S.n[15]) == 0)))
+    depth = sp.get("depth")
+    if depth == "call":
+        posts.append(("b0' = 16", S.v(S.b0n) == 16))
+    elif depth == "free":
+        pass
+    elif shift == 0:
+        posts.append(("b0' = b0", ctx.eq(S.b0n, S.b0)))
+    elif shift == 1:
+        posts.append(("b0' = b0 + 1", ctx.eq(S.b0n, S.b0 + 1)))
+        posts.append(("b1' = clk", ctx.eq(S.b1n, S.clk)))
+    else:
+        posts.append(("b0' = b0 - [b0 != 16]", z3.If(b0v == 16, S.v(S.b0n) == 16, ctx.eq(S.b0n, S.b0 - 1))))
+    posts.append(("clk' = clk + 1", ctx.eq(S.clkn, S.clk + 1)))
+    for label, b in sp.get("implied", []):
+        posts.append((f"implied: {label}", b))
+    for label, b in sp.get("extra", []):
+        posts.append((label, b))
+    return pre, posts, pre_labels
